@@ -253,7 +253,7 @@ func splitTopLevel(s string, sep byte) []string {
 }
 
 var specWords = map[string]string{
-	"old": "spec_old", "entry": "spec_entry", "has": "spec_has", "fresh": "spec_fresh", "eq": "spec_eq", "existed": "spec_existed",
+	"old": "spec_old", "entry": "spec_entry", "has": "spec_has", "fresh": "spec_fresh", "eq": "spec_eq", "existed": "spec_existed", "elem": "spec_elem",
 }
 
 // desugar rewrites the clause language (forall/exists/==>/<==>/old/has/...) into type-checkable Go.
